@@ -433,4 +433,14 @@ def _z3_version():
 
 
 if __name__ == '__main__':
-    sys.exit(main())
+    try:
+        rc = main()
+    except SystemExit:
+        raise
+    except BaseException as err:  # noqa
+        # a crash of the checker is a checker problem (exit 3), never a verdict
+        import traceback
+        print('problem: checker crashed: %r' % (err,))
+        print(traceback.format_exc()[-1500:])
+        rc = 3
+    sys.exit(rc)
